@@ -481,6 +481,7 @@ class Executor:
         self.enums = enums if isinstance(enums, Enums) else Enums(enums)
         self.inline = [re.compile(x) for x in (inline or [])]
         self.emulate_option_map = False     # opt-in: follow the closure of Option::map / and_then instead of keeping the call opaque
+        self.emulate_result_alternatives = False   # opt-in: Result::or_else / unwrap_or / unwrap_or_else fork on Ok / Err (closure bodies followed)
         # private helpers a refactoring introduced are inlined: every first-party function whose name did not
         # exist when the lemmas were written (lib/firstparty_names.json, recorded from the pinned tree)
         self.inline_pred = default_helper_pred()
@@ -1341,6 +1342,62 @@ class Executor:
                         r = ("variant", "Option", "Some", (o.ret,)) if mo.group(1) == "map" else o.ret
                         if dest is not None:
                             self.write_placekey(o.state, (fr, func, dest[1], dest[2]), r)
+                        work.append((ret, o.state))
+                return None
+        # Option::or(a, b): a when it is Some, b otherwise (same opt-in as Option::map)
+        if self.summaries and len(args) == 2 and ret is not None and self.emulate_option_map and \
+                re.match(r"^(?:std::option::)?Option::<.*>::or$", STD_PREFIX.sub("", callee)):
+            self.summaries_used.add("Option::or (a if a is Some, else b)")
+            d = disc_of(args[0], self.enums)
+            for want in (1, 0):
+                s2 = st.copy()
+                okb = (d[2] == want) if d[0] == "c" else s2.assume_eq(d, want)
+                if not okb:
+                    continue
+                if dest is not None:
+                    self.write_placekey(s2, (fr, func, dest[1], dest[2]), args[0] if want == 1 else args[1])
+                work.append((ret, s2))
+            return None
+        # Result::or_else / unwrap_or_else with a closure at hand, Result::unwrap_or: Ok keeps the value, Err runs the alternative
+        mr = re.match(r"^(?:std::result::)?Result::<.*>::(or_else|unwrap_or_else|unwrap_or)(?:::<.*>)?$", STD_PREFIX.sub("", callee))
+        if mr and self.summaries and len(args) == 2 and ret is not None and self.emulate_result_alternatives:
+            how = mr.group(1)
+            cf = self.closure_target(args[1]) if how != "unwrap_or" else None
+            if how == "unwrap_or" or (cf is not None and cf not in self._inline_stack and len(cf.args) == 2):
+                self.summaries_used.add("Result::%s (Ok keeps the value; Err: the alternative%s)" % (how, "" if how == "unwrap_or" else " closure runs on the error"))
+                x = args[0]
+                d = disc_of(x, self.enums)
+                for want in (0, 1):
+                    s2 = st.copy()
+                    okb = (d[2] == want) if d[0] == "c" else s2.assume_eq(d, want)
+                    if not okb:
+                        continue
+                    if want == 0:
+                        v = x if how == "or_else" else proj(proj(x, ("v", "Ok"), self.enums), ("f", 0), self.enums)
+                        if dest is not None:
+                            self.write_placekey(s2, (fr, func, dest[1], dest[2]), v)
+                        work.append((ret, s2))
+                        continue
+                    if how == "unwrap_or":
+                        if dest is not None:
+                            self.write_placekey(s2, (fr, func, dest[1], dest[2]), args[1])
+                        work.append((ret, s2))
+                        continue
+                    errv = proj(proj(x, ("v", "Err"), self.enums), ("f", 0), self.enums)
+                    clo = args[1]
+                    carg = ("addr", clo) if cf.args[0][1].strip().startswith("&") else clo
+                    fr2 = next(self.frame_seq)
+                    self._inline_stack.append(cf)
+                    try:
+                        sub = self.run(cf, [carg, errv], s2, fr2, depth + 1, _count=False)
+                    finally:
+                        self._inline_stack.pop()
+                    for o in sub:
+                        if o.kind != "return":
+                            outs.append(o)
+                            continue
+                        if dest is not None:
+                            self.write_placekey(o.state, (fr, func, dest[1], dest[2]), o.ret)
                         work.append((ret, o.state))
                 return None
         # `source.filter(p).map(f)...collect()` is a loop in disguise too: no element, or one arbitrary element pushed
